@@ -274,6 +274,23 @@ int main(int argc, char** argv) {
                 if (nd.cancel_calls.load() > 0 && nd.winners.load() == 0 && !inherited[i]) s.fail("c04.no-winner", "none of " + std::to_string(nd.cancel_calls.load()) + " cancel calls on context " + std::to_string(i) + " returned true although nothing else cancelled it");
                 if (nd.seen_cancelled.load() && !got) s.fail("c04.uncancelled", "context " + std::to_string(i) + " was observed cancelled by a body and is not cancelled at the end (no reset)");
             }
+            // ---- second round on the same, still bound, tree: reset every cancelled context (legal: nothing is running), then
+            // cancel a few targets again. Binding is permanent, so the closure over the same edges must be cancelled again.
+            if (!s.fails.load() && n >= 3 && r.chance(1, 2)) {
+                for (int i = 0; i < n; i++) { Node& nd = *s.nodes[i]; if (nd.ctx->is_group_execution_cancelled()) nd.ctx->reset(); nd.cancel_calls = 0; nd.winners = 0; nd.seen_cancelled = false; nd.cancel_done_seq = 0; }
+                for (int i = 0; i < n; i++) if (s.nodes[i]->ctx->is_group_execution_cancelled()) s.fail("c04.reset-did-not-clear", "context " + std::to_string(i) + " still cancelled after reset()");
+                int k2 = 1 + (int)r.below(3);
+                for (int j = 0; j < k2; j++) s.cancel((int)r.below(n));
+                std::vector<char> exp2(n, 0);
+                for (int i = 0; i < n; i++) { Node& nd = *s.nodes[i]; bool inh = i != 0 && nd.parent >= 0 && nd.bound && !nd.cut && nd.used.load() && exp2[nd.parent]; exp2[i] = nd.cancel_calls.load() > 0 || inh; }
+                for (int i = 0; i < n; i++) {
+                    Node& nd = *s.nodes[i]; bool got = nd.ctx->is_group_execution_cancelled();
+                    if (got && !exp2[i]) s.fail("c04.cancelled-without-cause", "after reset and a new cancel: context " + std::to_string(i) + " is cancelled without cause");
+                    if (!got && exp2[i]) s.fail(nd.cancel_calls.load() > 0 ? "c04.target-not-cancelled" : "c04.descendant-missed", "after reset() of the whole tree and a new cancel: context " + std::to_string(i) + " (parent " + std::to_string(nd.parent) + ") is not cancelled although " + (nd.cancel_calls.load() > 0 ? "it was the target" : "its bound parent is cancelled again (binding is permanent)"));
+                    if (nd.cancel_calls.load() > 0 && nd.winners.load() != 1 && !(exp2[i] && nd.winners.load() == 0 && nd.parent >= 0 && exp2[nd.parent] && nd.bound && !nd.cut && nd.used.load())) s.fail("c04.winner-count", "after reset: " + std::to_string(nd.winners.load()) + " winners among " + std::to_string(nd.cancel_calls.load()) + " cancel calls on context " + std::to_string(i));
+                }
+                R.stat("reset_rounds");
+            }
             R.scenarios++;
             R.stat("contexts", n); R.stat("cancelled", cancelled); R.stat("targets", targets);
             R.stat("ephemeral_contexts", s.ephemerals.load()); R.stat("certain_order_checks", s.certain_checked.load() + s.ephemeral_checked.load());
